@@ -249,7 +249,9 @@ def gen(tier, seed, boost=False):
         params = dict(max_depth=rng.choice([None, 1, 2, 3, 4]), random_state=rng.randrange(10 ** 6))
         if model.startswith('rf'):
             params['n_estimators'] = rng.randint(1, 3)
-        yield dict(stream='trees', kind='tree', model=model, X=X, y=y, params=params)
+        # n_jobs: the extents must not depend on the number of parallel jobs (every 4th forest / 8th tree with 2 jobs)
+        yield dict(stream='trees', kind='tree', model=model, X=X, y=y, params=params,
+                   n_jobs=2 if (i % 8 in (2, 3, 7)) else 1)
     # proper interval cells: own stream, LAST (known finding D19: node extents need not be closed; the runner stops
     # after 200 failing cases, so this stream is kept small and cannot cut off any other stream)
     nrp = 60 if tier == 'quick' else 240
@@ -308,7 +310,10 @@ def _impl_rf(c):
 def _impl_tree(c):
     from fcapy.algorithms.concept_construction import parse_decision_tree_to_extents
     mdl, X = fit_model(c)
-    exts = parse_decision_tree_to_extents(mdl, X)
+    import warnings
+    with warnings.catch_warnings():
+        warnings.simplefilter('ignore')    # joblib inside a worker process falls back to sequential execution (and says so)
+        exts = parse_decision_tree_to_extents(mdl, X, n_jobs=int(c.get('n_jobs', 1)))
     return dict(ok=[canon_ext(e) for e in exts], types=sorted({type(e).__name__ for e in exts}))
 
 
